@@ -41,7 +41,12 @@ Inductive case :=
       observed: whether the secondary was started (no standby) / released
       (standby) within [bound] ms of the call (best of three attempts), and
       the result *)
-| CTiming (cfg : Z) (sb : bool) (bound : Z) (within : bool) (r : result).
+| CTiming (cfg : Z) (sb : bool) (bound : Z) (within : bool) (r : result)
+  (** a call on an instance on which [n] earlier calls (always_standby as
+      configured, threshold 50 ms) were abandoned by their callers before the
+      threshold, their primaries still busy and their workers still parked
+      while this call runs; the rest as in [Case] *)
+| CSeq (n : N) (po so : outcome) (standby : bool) (tm : tmode) (dl : dmode) (g : gates) (o : obs).
 
 Definition cond_n (c : cond) : N :=
   match c with CTrue => 0 | CDelay => 1 | CNever => 2 | CSstarted => 3 | CSready => 4
@@ -78,6 +83,14 @@ Definition agree (c : case) : bool :=
   | Case po so sb tm dl g (ORet r sta rd sh pm) =>
     existsb (matches sb r sta rd sh pm) (reach_states (case_gates dl g) (case_params po so sb tm dl g))
   | Case _ _ _ _ _ _ _ => false
+  | CSeq n po so sb tm dl g (ORet r sta rd sh pm) =>
+    (* the model of a later call is the single-call model (Model.Fallback.call_model) *)
+    let p := case_params po so sb tm dl g in
+    match call_model (repeat (source_params OAns OAns sb true false true) (N.to_nat n)) p with
+    | Some i => existsb (matches sb r sta rd sh pm) (states (reach_table (gstep (case_gates dl g) p) i))
+    | None => false
+    end
+  | CSeq _ _ _ _ _ _ _ _ => false
   | CConf cfg sb (Some (eff, esb)) =>
     (eff =? effective_threshold (match cfg with Some c => c | None => 0 end))%Z && Bool.eqb esb sb
   | CConf _ _ None => false
@@ -97,9 +110,9 @@ Definition configured_ms (cfg : option Z) : Z :=
   | None => 500%Z
   end.
 
-Definition spec (c : case) : bool :=
-  match c with
-  | Case po so sb tm dl g (ORet r sta rd sh pm) =>
+Definition spec_call (po so : outcome) (sb : bool) (tm : tmode) (dl : dmode) (g : gates) (o : obs) : bool :=
+  match o with
+  | ORet r sta rd sh pm =>
     let quiet := negb (fires tm) && negb (is_near dl) in          (* neither threshold nor deadline can pass *)
     let no_ctx := negb (is_near dl) && cond_eqb (g_ctx g) CNever in (* the caller's context cannot end *)
     let p_after_ret := cond_eqb (g_pexec g) CRet in               (* the primary produces nothing before the call returns *)
@@ -120,7 +133,14 @@ Definition spec (c : case) : bool :=
     && (if quiet && negb sb && sta then negb (ans po) && negb p_after_ret else true)
     (* with always_standby a finished secondary waits for the primary's signal *)
     && (if quiet && sb && ans so && sh then negb p_after_ret && (if ans po then pm else true) else true)
-  | Case _ _ _ _ _ _ _ => false
+  | _ => false
+  end.
+
+Definition spec (c : case) : bool :=
+  match c with
+  | Case po so sb tm dl g o => spec_call po so sb tm dl g o
+  (* the outcome of a call does not depend on earlier calls *)
+  | CSeq _ po so sb tm dl g o => spec_call po so sb tm dl g o
   (* "the threshold" is the configured one (documented: milliseconds, default 500) *)
   | CConf cfg sb (Some (eff, esb)) =>
     (eff =? configured_ms cfg * 1000000)%Z && Bool.eqb esb sb
@@ -139,4 +159,5 @@ Definition nontrivial (c : case) : bool :=
   | CConf (Some c) _ _ => (0 <? c)%Z   (* a configured value *)
   | CConf None _ _ => false
   | CTiming _ _ _ _ _ => true
+  | CSeq _ _ _ _ _ _ _ _ => true
   end.
